@@ -829,6 +829,11 @@ def _deserialize_graph(
             )
             if initializer_name in value_info:
                 deserialize_value_info_proto(value_info[initializer_name], initializer_value)
+                if initializer_value.type is None:
+                    # A value_info entry without a type (it cannot carry a shape either)
+                    # does not erase what the tensor itself says
+                    initializer_value.type = _core.TensorType(tensor.dtype)
+                    initializer_value.shape = tensor.shape  # type: ignore[assignment]
             if initializer_value.name in quantization_annotations:
                 _deserialize_quantization_annotation(
                     quantization_annotations[initializer_value.name], initializer_value
